@@ -331,6 +331,7 @@ func (p *parser) nud() *Node {
 		cond := p.expression(0)
 		p.match(tRbracket)
 		rhs := p.projectionRHS()
+		p.checkFilterRHS(rhs)
 		return &Node{Kind: NFilterProj, Kids: []*Node{{Kind: NCurrent}, rhs, cond}}
 	case tLbrace:
 		p.advance()
@@ -433,7 +434,14 @@ func (p *parser) projectionRHS() *Node {
 		return &Node{Kind: NIdentity}
 	}
 	switch t.k {
-	case tLbracket, tFilter:
+	case tLbracket:
+		if nk := p.peek().k; nk != tNumber && nk != tColon && !(nk == tStar) {
+			// "x[*][a, b]": the grammar has no such production, but the
+			// reference implementation reads it as a multi-select: not judged
+			p.gap("multi-select list directly after a projection")
+		}
+		return p.expression(projectionStop - 1)
+	case tFilter:
 		return p.expression(projectionStop - 1)
 	case tDot:
 		p.advance()
@@ -531,6 +539,7 @@ func (p *parser) led(left *Node) *Node {
 		cond := p.expression(0)
 		p.match(tRbracket)
 		rhs := p.projectionRHS()
+		p.checkFilterRHS(rhs)
 		return &Node{Kind: NFilterProj, Kids: []*Node{left, rhs, cond}}
 	case tLbracket:
 		p.advance()
@@ -973,4 +982,53 @@ func (j *jsonScanner) str() (string, bool) {
 		}
 	}
 	return "", false
+}
+
+// checkFilterRHS: in the right-hand side of a filter projection, a later
+// filter at the same level ("a[?x].b[?y]") is read by the reference
+// implementation as a filter of the projected result, not of each element.
+// The model does not judge such texts.
+func (p *parser) checkFilterRHS(rhs *Node) {
+	n := rhs
+	first := true
+	for n != nil {
+		if n.Paren {
+			return
+		}
+		switch n.Kind {
+		case NFilterProj:
+			if !(first && n.Kids[0].Kind == NCurrent) {
+				p.gap("filter inside the right-hand side of a filter projection")
+				return
+			}
+			// "[?x][?y]": directly adjacent filters nest in every reading
+			if n.Kids[0].Kind != NCurrent {
+				p.gap("filter inside the right-hand side of a filter projection")
+				return
+			}
+			return
+		case NSub, NIndex, NSlice, NProj, NFlatten, NValProj:
+			// walk down the spine: the subject is applied first
+			if hasFilterOnSpine(n.Kids[0]) {
+				p.gap("filter inside the right-hand side of a filter projection")
+			}
+			return
+		default:
+			return
+		}
+	}
+}
+
+func hasFilterOnSpine(n *Node) bool {
+	for n != nil && !n.Paren {
+		switch n.Kind {
+		case NFilterProj:
+			return true
+		case NSub, NIndex, NSlice, NProj, NFlatten, NValProj:
+			n = n.Kids[0]
+		default:
+			return false
+		}
+	}
+	return false
 }
